@@ -40,7 +40,7 @@ PROPS = {
     trusted=['serde_json (built with float_roundtrip) prints and parses the JSON data model faithfully; serde derive implements the documented internally-tagged representation'],
  ),
  'C01': dict(
-    modules=['SlacProps.C01'],
+    modules=['SlacProps.C01', 'SlacProps.C01Text'],
     streams=[
         dict(name='parsekinds', n=n(4, 5), view='okfull', oracle='none'),
         dict(name='parse', n=n(40000, 1000000), view='okfull', oracle='none'),
@@ -102,8 +102,9 @@ PROPS = {
     trusted=['Rust stack-frame sizes and wall-clock are not expressible in Lean: the depth bound (parse_depth) is proved on the model, the actual stack is observed by the child-process run'],
  ),
  'C10': dict(
-    modules=['SlacProps.C10'],
+    modules=['SlacProps.C10', 'SlacProps.C10Tables', 'SlacProps.C10Optimize'], regen=True,
     streams=[
+        dict(name='dcall', n=n(150, 5000), view='kind', oracle='none', laws=['c10_dcall']),
         dict(name='chkvf', n=n(50000, 1500000), view='chk_exec', oracle='none', laws=['c10']),
         dict(name='opt', n=n(30000, 1000000), view='opt_c10', oracle='none', laws=['c10_opt']),
         dict(name='env', n=n(20000, 500000), oracle='none', rust_oracle=True),
@@ -161,7 +162,7 @@ PROPS = {
  ),
  'C09': dict(
     modules=['SlacProps.C09'], regen=True, builds=['default', 'checked', 'zero', 'zerochecked'],
-    streams=[dict(name='call', build=b, n=n(60, 2500), oracle='none', rust_oracle=True, laws=['no_crash'], case_timeout=20.0) for b in ['default', 'checked', 'zero', 'zerochecked']] +
+    streams=[dict(name='call', build=b, n=n(150, 2500), oracle='none', rust_oracle=True, laws=['no_crash'], case_timeout=20.0) for b in ['default', 'checked', 'zero', 'zerochecked']] +
             [dict(name='re', n=n(20000, 500000), oracle='none', laws=['no_crash'])],
     rule='call: every registered builtin x n generated argument lists (7/8 of the documented kinds with boundary magnitudes: NaN, +-inf, +-0, -1, 0.5, 2^53, 2^64, 1e300 as indices/counts/dates/code points; '
          'empty and non-ASCII strings; malformed formats and patterns; arrays of 0, 1, 20, 21, 30-300 elements; 1/8 arbitrary kinds and counts 0..5), in worker processes, in 4 builds '
@@ -171,8 +172,8 @@ PROPS = {
  'C14': dict(
     modules=['SlacProps.C14'], regen=True,
     streams=[
-        dict(name='rep', n=n(100, 1500), model=False, oracle='none', laws=['stable']),
-        dict(name='call', n=n(60, 2500), oracle='none', repeat_process=True),
+        dict(name='rep', n=n(100, 1500), model=False, oracle='none', laws=['stable'], tz='CET-1CEST,M3.5.0,M10.5.0/3'),
+        dict(name='call', n=n(100, 2500), oracle='none', repeat_process=True, tz='CET-1CEST,M3.5.0,M10.5.0/3'),
     ],
     rule='rep: every pure builtin x n argument lists, each evaluated 20 times in one process with other calls in between; call: the same lists evaluated in two separate processes (differently seeded hashers) and compared, '
          'and compared with the model (a Lean function of the arguments). Arrays whose elements are equal across kinds (1, \'1\', true) are over-represented',
@@ -196,5 +197,28 @@ PROPS = {
          'positions and counts at first-1, first, last, last+1, 0, fractional, huge, NaN; answers compared with the sequence model. poslaw: at-enumeration, copy(s, find(s,x), length(x)) = x, failed find = first-1, array laws — evaluated on the builtins themselves',
     trusted=[FLOAT_TB, 'LawfulIdx: small integers are exact in binary64 (hypothesis of the position theorems; toy instance proves it satisfiable; tied by the num stream)',
              'Unicode case mapping / White_Space from Rust std tables'],
+ ),
+ 'C16': dict(
+    modules=['SlacProps.C16'],
+    streams=[
+        dict(name='tmrange', n=n(0, 1), view='tmrange', oracle='none', laws=['tmrange'], case_timeout=600.0),
+        dict(name='call:date,time,date_to_string,time_to_string,string_to_date,string_to_time,string_to_datetime,day_of_week,encode_date,encode_time,inc_month,is_leap_year,year,month,day,hour,minute,second,millisecond', gen='call:date,time,date_to_string,time_to_string,string_to_date,string_to_time,string_to_datetime,day_of_week,encode_date,encode_time,inc_month,is_leap_year,year,month,day,hour,minute,second,millisecond', n=n(400, 20000), oracle='none', laws=['no_crash']),
+        dict(name='num', n=n(30000, 1000000), oracle='none'),
+    ],
+    rule='tmrange: whole ranges evaluated inside one request, compared by violation count + digest of all encoded numbers: quick = 45 ranges of 2000 dates (incl. year 1, year 9999, 1970, leap day 2000), 44 ranges of 5000 ms of day (incl. midnight, end of day, hour and noon boundaries), 20x2000 date x time combinations through both construction routes and inc_month with increments -24000..24000; '
+         'thorough = ALL 3 652 059 dates of years 1-9999, ALL 86 400 000 milliseconds of day, 1 000 000 combinations. call: the 19 date-time builtins on boundary-heavy arguments (year 0/-1/9999/10000, chrono limits, NaN, inf, malformed formats and strings). TZ=UTC',
+    trusted=[FLOAT_TB, 'LawfulTimeNum: binary64 multiplication/division/round/casts follow the standard model of floating-point arithmetic on date-time operands (|T| <= 2^48 ms); the rounding fact is PROVED from the standard model over Q (decode_encode_real), the standard model itself is the assumption',
+             'chrono (NaiveDate range, checked_add_months, default-format parsing/printing) is modelled by SlacModel/Time.lean on the canonical spellings only; other spellings/formats are skipped and counted'],
+ ),
+ 'C17': dict(
+    modules=['SlacProps.C17'],
+    streams=[
+        dict(name='call:str,float,int,bool,chr,ord,int_to_hex,even,odd,abs,round,trunc,frac,sqrt,exp,ln,sin,cos,arc_tan,pow', gen='call:str,float,int,bool,chr,ord,int_to_hex,even,odd,abs,round,trunc,frac,sqrt,exp,ln,sin,cos,arc_tan,pow', n=n(400, 20000), oracle='none', laws=['no_crash']),
+        dict(name='num', n=n(60000, 2000000), oracle='none'),
+        dict(name='mathlaw', n=n(20000, 1000000), model=False, oracle='none', laws=['ok']),
+    ],
+    rule='call: the 20 conversion/maths builtins on boundary-heavy arguments against the model; num: every bit-level definition of Num.lean (trunc, fract, round, fmod, casts, decimal parsing, shortest printing) against the hardware / std; '
+         'mathlaw (on the crate): builtin vs f64::method bit for bit incl. libm, float(str(x)) = x, trunc+frac, round half away, chr/ord over ALL 1 114 112 code points (exhaustive), parity and hex over -2000..2000, the 2^31 / 2^32 / 2^52 / 2^53 / 2^62 neighbourhoods and random integers',
+    trusted=[FLOAT_TB, 'libm (sin cos exp ln atan pow) is a parameter of the model: the property only says the builtin IS the library function', 'float("") differs from the model only in the text of the error message (not compared)'],
  ),
 }
